@@ -318,6 +318,21 @@ func runC02Type[V any](tier string, rng Rng, out *Out, c Codec[V], u []int, outs
 				}
 			}
 		}
+		// class functions with an empty operand, the same operand twice, and a full one: the result is a new set, and
+		// what happens to it later is not seen through the operands (nor the other way round)
+		for mask := 0; rk == "nat" && mask < nsub; mask += 3 {
+			state := subsetOf(u, mask)
+			for _, op := range []string{"and", "or", "sans", "xor"} {
+				for _, pair := range [][2][]int{{state, {}}, {{}, state}} {
+					*caseID++
+					t := &setTarget[V]{c: c, rk: rk, out: out}
+					t.line(*caseID, seqOp{op: op, vs: pair[0], ws: pair[1]})
+				}
+				*caseID++
+				t := &setTarget[V]{c: c, rk: rk, out: out}
+				t.line(*caseID, seqOp{op: op, vs: state, ws: state, alias: "same"})
+			}
+		}
 		// random histories over a larger domain
 		hist, steps := 30, 60
 		if tier == "thorough" {
